@@ -47,7 +47,7 @@ Proof.
   rewrite A. reflexivity.
 Qed.
 
-Definition flat_W v : flat v -> W v.
+Lemma flat_W v : flat v -> W v.
 Proof. destruct v; cbn; try contradiction; intros _; exact I. Qed.
 
 Lemma sublist_NoDup {A} (l l' : list A) : sublist l l' -> NoDup l' -> NoDup l.
